@@ -221,31 +221,106 @@ def flagAfter (b : Bool) : Op → Bool
   | .save => b
   | .adapterSave => b
 
+/-- the repaired adapter resets the flag exactly when it has read the whole file -/
+theorem adapterLoad_flag (s : EState) (m : Store) :
+    (adapterLoad s m).1.filtered = if (adapterLoad s m).2.2.isNone then false else s.filtered := by
+  unfold adapterLoad; rfl
+
+theorem adapterLoad_flag_ok (s : EState) (m : Store) (h : (adapterLoad s m).2.2 = none) :
+    (adapterLoad s m).1.filtered = false := by
+  rw [adapterLoad_flag, h]; rfl
+
+/-- **F26a repaired**: a full load that fails while the adapter reads the file changes nothing in the adapter -/
+theorem adapterLoad_failed_noop (s : EState) (m : Store) (e : Err) (h : (adapterLoad s m).2.2 = some e) :
+    (adapterLoad s m).1 = s := by
+  unfold adapterLoad at h ⊢
+  simp only at h ⊢
+  rw [h]; rfl
+
 theorem adapterLoadFiltered_flag (s : EState) (m : Store) (f : Option Filter)
     (h : (adapterLoadFiltered s m f).2.2 = none) : (adapterLoadFiltered s m f).1.filtered = isProper f := by
   cases f with
-  | none => simp [adapterLoadFiltered, adapterLoad, isProper]
+  | none =>
+    simp only [adapterLoadFiltered] at h ⊢
+    rw [adapterLoad_flag_ok s m h]; rfl
   | some f =>
     unfold adapterLoadFiltered at h ⊢
     by_cases he : isEmptyFilter f = true
-    · simp [he, adapterLoad, isProper]
+    · simp only [he, ↓reduceIte] at h ⊢
+      have h' : (adapterLoad s m).2.2 = none := by
+        cases hx : (adapterLoad s m).2.2 with
+        | none => rfl
+        | some e => rw [hx] at h; simp at h
+      rw [adapterLoad_flag_ok s m h']; simp [isProper, he]
     · simp only [he, Bool.false_eq_true, ↓reduceIte] at h ⊢
       have he' : isEmptyFilter f = false := by simpa using he
       split at h
       · simp at h
       · simp [isProper, he']
 
-theorem loadPolicy_flag (s : EState) : (loadPolicy s).1.filtered = false := by
-  unfold loadPolicy adapterLoad
-  simp only
-  cases loadFile s.file (clearPG s.mem) with
-  | mk m' e =>
-    cases e with
-    | some e => rfl
-    | none =>
-      simp only
-      cases buildLinks m' with
-      | mk ls e2 => cases e2 <;> rfl
+/-- a successful full load ends the filtered state -/
+theorem loadPolicy_flag (s : EState) (hok : (loadPolicy s).2 = none) : (loadPolicy s).1.filtered = false := by
+  unfold loadPolicy at hok ⊢
+  have hf := adapterLoad_flag s (clearPG s.mem)
+  cases hA : adapterLoad s (clearPG s.mem) with
+  | mk s1 rest =>
+    cases rest with
+    | mk m' e =>
+      rw [hA] at hok hf
+      cases e with
+      | some e => simp at hok
+      | none =>
+        simp only at hok hf ⊢
+        cases hB : buildLinks m' with
+        | mk ls e2 =>
+          rw [hB] at hok
+          cases e2 with
+          | some e2 => simp at hok
+          | none => simpa using hf
+
+/-- a failed full load never changes what memory holds (the enforcer loads into a copy) -/
+theorem loadPolicy_failed_keeps_memory (s : EState) (h : (loadPolicy s).2 ≠ none) : (loadPolicy s).1.mem = s.mem := by
+  unfold loadPolicy at h ⊢
+  cases hA : adapterLoad s (clearPG s.mem) with
+  | mk s1 rest =>
+    cases rest with
+    | mk m' e =>
+      have hmem : s1.mem = s.mem := by
+        have : (adapterLoad s (clearPG s.mem)).1.mem = s.mem := by unfold adapterLoad; rfl
+        rw [hA] at this; exact this
+      rw [hA] at h
+      cases e with
+      | some e => exact hmem
+      | none =>
+        simp only at h ⊢
+        cases hB : buildLinks m' with
+        | mk ls e2 =>
+          rw [hB] at h
+          cases e2 with
+          | some e2 => exact hmem
+          | none => simp at h
+
+/-- **F26a repaired, enforcer level**: when the adapter fails to read the file, `load_policy` changes nothing at all -
+    in particular `is_filtered()` stays set and a following `save_policy` is still refused -/
+theorem loadPolicy_adapter_failure_noop (s : EState) (e : Err)
+    (h : (adapterLoad s (clearPG s.mem)).2.2 = some e) : loadPolicy s = (s, some e) := by
+  have hs := adapterLoad_failed_noop s (clearPG s.mem) e h
+  unfold loadPolicy
+  cases hA : adapterLoad s (clearPG s.mem) with
+  | mk s1 rest =>
+    cases rest with
+    | mk m' e' =>
+      rw [hA] at h hs
+      simp only at h hs
+      subst h; subst hs
+      rfl
+
+theorem save_still_refused_after_failed_read (s : EState) (e : Err) (hf : s.filtered = true)
+    (h : (adapterLoad s (clearPG s.mem)).2.2 = some e) (op : Op) (hop : op = .save ∨ op = .adapterSave) :
+    (step (step s .load).1 op).2 = some .cannotSaveFiltered := by
+  have : (step s .load).1 = s := by simp [step, loadPolicy_adapter_failure_noop s e h]
+  rw [this]
+  rcases hop with rfl | rfl <;> simp [step, savePolicy, hf]
 
 theorem loadFilteredGen_flag (clear : Bool) (s : EState) (f : Option Filter)
     (h : (loadFilteredGen clear s f).2 = none) : (loadFilteredGen clear s f).1.filtered = isProper f := by
@@ -267,7 +342,9 @@ theorem loadFilteredGen_flag (clear : Bool) (s : EState) (f : Option Filter)
 theorem flag_machine_step (s : EState) (op : Op) (hok : (step s op).2 = none ∨ op = .save ∨ op = .adapterSave) :
     (step s op).1.filtered = flagAfter s.filtered op := by
   cases op with
-  | load => exact loadPolicy_flag s
+  | load =>
+    have hok : (step s .load).2 = none := by simpa using hok
+    exact loadPolicy_flag s hok
   | loadFiltered f =>
     have hok : (step s (.loadFiltered f)).2 = none := by simpa using hok
     exact loadFilteredGen_flag true s f hok
@@ -616,5 +693,44 @@ example : (loadFilteredGen true exState (some exFilter)).2 = none ∧
 
 example : isProper (some exFilter) = true ∧ isProper none = false ∧
     isProper (some { P := [[], [' ']], G := [] }) = false := by decide
+
+/-! ## failed full loads and a policy file that goes missing -/
+
+/-- **F26b (open finding), witness**: when the adapter has read the file but the enforcer then rejects it (a grouping
+    rule shorter than its role definition) the enforcer rolls memory back to the filtered subset, yet the adapter has
+    already ended the filtered state - the following `save_policy` is allowed and writes the partial view -/
+def f26bState : EState :=
+  { mem := [{ key := ['p'], arity := 3, rules := [["a".toList, "b".toList, "c".toList]] }, { key := ['g'], arity := 2, rules := [] }],
+    filtered := true, file := "p, a, b, c\np, x, y, z\ng, a".toList }
+
+theorem enforcer_rollback_ends_filtered_state_witness :
+    f26bState.filtered = true ∧ (loadPolicy f26bState).2 = some .roleDefinition ∧
+    (loadPolicy f26bState).1.mem = f26bState.mem ∧ (loadPolicy f26bState).1.filtered = false ∧
+    (step (loadPolicy f26bState).1 .save).2 = none ∧
+    (step (loadPolicy f26bState).1 .save).1.file = "p, a, b, c".toList := by decide
+
+/-- with the policy file missing no load changes `is_filtered()` -/
+theorem missing_file_keeps_flag (s : FState) (o : Op) (h : s.present = false) :
+    (stepF s (.op o)).1.e.filtered = s.e.filtered := by
+  cases o <;> simp only [stepF, h, Bool.false_eq_true, ↓reduceIte, savePolicy]
+  all_goals split <;> rfl
+
+/-- … a full load fails and leaves everything as it was … -/
+theorem missing_file_load_noop (s : FState) (h : s.present = false) :
+    stepF s (.op .load) = (s, some .invalidPath) := by
+  simp [stepF, h]
+
+/-- … so a partial view is still not written over the store once the file is back -/
+theorem save_refused_after_missing_file (s : FState) (hf : s.e.filtered = true) (op : Op)
+    (hop : op = .save ∨ op = .adapterSave) :
+    stepF (stepF (stepF (stepF s .unlink).1 (.op .load)).1 .restore).1 (.op op) =
+      ({ s with present := true }, some .cannotSaveFiltered) := by
+  have h1 : stepF (stepF s .unlink).1 (.op .load) = ({ s with present := false }, some .invalidPath) := by
+    simp [stepF]
+  rw [h1]
+  rcases hop with rfl | rfl <;> simp [stepF, step, savePolicy, hf]
+
+example : (stepF (runF { e := exState } [.op (.loadFiltered (some exFilter)), .unlink, .op .load, .restore]) (.op .save)).2
+    = some .cannotSaveFiltered := by decide
 
 end Casbin.C12
